@@ -494,7 +494,7 @@ func c29RunToDone(w *c29World, t *c29Thread) {
 	w.byID[t.id] = t
 	w.mu.Unlock()
 	t.start(w)
-	deadline := time.Now().Add(5 * time.Second)
+	deadline := time.Now().Add(2 * time.Second)
 	for t.getStatus() != "done" {
 		w.mu.Lock()
 		stuck := w.stuck
@@ -505,7 +505,7 @@ func c29RunToDone(w *c29World, t *c29Thread) {
 			w.stuck = true
 			w.mu.Unlock()
 			if first {
-				w.oracle("request-stuck", fmt.Sprintf("concurrent search: request %d did not complete within 5 s (a session lock was never released?)", t.id))
+				w.oracle("request-stuck", fmt.Sprintf("concurrent search: request %d did not complete within 2 s (a session lock was never released?)", t.id))
 			}
 			return
 		}
